@@ -2,6 +2,7 @@ package tensor
 
 import (
 	"reflect"
+	"unsafe"
 
 	"github.com/pkg/errors"
 	"gorgonia.org/tensor/internal/storage"
@@ -130,11 +131,73 @@ func scalarDtypeCheck(a Tensor, b interface{}) error {
 	return nil
 }
 
+// sharesMemory reports whether the memory blocks of two tensors have a byte in common.
+func sharesMemory(a, b Tensor) bool {
+	ah, bh := a.hdr(), b.hdr()
+	if ah == nil || bh == nil || len(ah.Raw) == 0 || len(bh.Raw) == 0 {
+		return false
+	}
+	aptr := uintptr(unsafe.Pointer(&ah.Raw[0]))
+	bptr := uintptr(unsafe.Pointer(&bh.Raw[0]))
+	return aptr < bptr+uintptr(len(bh.Raw)) && bptr < aptr+uintptr(len(ah.Raw))
+}
+
+// sameAccess reports whether two tensors address the same memory cells in the same sequence.
+// A loop that works in place on both reads every cell before it writes it.
+func sameAccess(a, b Tensor) bool {
+	if a == b {
+		return true
+	}
+	ah, bh := a.hdr(), b.hdr()
+	if len(ah.Raw) != len(bh.Raw) || len(ah.Raw) == 0 || &ah.Raw[0] != &bh.Raw[0] {
+		return false
+	}
+	as, bs := a.Shape(), b.Shape()
+	ast, bst := a.Strides(), b.Strides()
+	if len(as) != len(bs) || len(ast) != len(bst) {
+		return false
+	}
+	for i := range as {
+		if as[i] != bs[i] {
+			return false
+		}
+	}
+	for i := range ast {
+		if ast[i] != bst[i] {
+			return false
+		}
+	}
+	return true
+}
+
+// operandFor returns the operand t of an operation whose result goes to dst (a reuse or increment tensor):
+// t itself, or a copy of t if the elements of t could be overwritten before they have been read, because
+// dst shares memory with t. inPlace says that the operation reads an element of t before it writes the element
+// of dst at the same position, so that a dst which addresses exactly the cells of t needs no copy.
+func operandFor(t, dst Tensor, inPlace bool) Tensor {
+	if _, ok := t.(DenseTensor); !ok {
+		return t
+	}
+	if _, ok := dst.(DenseTensor); !ok || !sharesMemory(t, dst) {
+		return t
+	}
+	if inPlace && sameAccess(t, dst) {
+		return t
+	}
+	return t.Clone().(Tensor)
+}
+
 // prepDataVV prepares the data given the input and reuse tensors. It also retruns several indicators
 //
 // useIter indicates that the iterator methods should be used.
 // swap indicates that the operands are swapped.
 func prepDataVV(a, b Tensor, reuse Tensor) (dataA, dataB, dataReuse *storage.Header, ait, bit, iit Iterator, useIter, swap bool, err error) {
+	if reuse != nil {
+		// the destination first receives the elements of a: b has to be out of its way
+		b = operandFor(b, reuse, false)
+		a = operandFor(a, reuse, true)
+	}
+
 	// get data
 	dataA = a.hdr()
 	dataB = b.hdr()
@@ -169,6 +232,10 @@ func prepDataVV(a, b Tensor, reuse Tensor) (dataA, dataB, dataReuse *storage.Hea
 }
 
 func prepDataVS(a Tensor, b interface{}, reuse Tensor) (dataA, dataB, dataReuse *storage.Header, ait, iit Iterator, useIter bool, newAlloc bool, err error) {
+	if reuse != nil {
+		a = operandFor(a, reuse, true)
+	}
+
 	// get data
 	dataA = a.hdr()
 	dataB, newAlloc = scalarToHeader(b)
@@ -192,6 +259,10 @@ func prepDataVS(a Tensor, b interface{}, reuse Tensor) (dataA, dataB, dataReuse 
 }
 
 func prepDataSV(a interface{}, b Tensor, reuse Tensor) (dataA, dataB, dataReuse *storage.Header, bit, iit Iterator, useIter bool, newAlloc bool, err error) {
+	if reuse != nil {
+		b = operandFor(b, reuse, true)
+	}
+
 	// get data
 	dataA, newAlloc = scalarToHeader(a)
 	dataB = b.hdr()
